@@ -311,7 +311,7 @@ def _c17(prop, tier, seed, jobs, limit):
                      'tower_overrides, together with overrides that repeat or contradict the tower expansions',
                      'stub: FrozenDict.__or__ runs with tracing switched off (CrossHair\'s patched dict() returns a mapping shell for '
                      'which the C-level dict.__or__ answers NotImplemented); all its operands are concrete',
-                     'environment: NO_COLOR / BEARTYPE_IS_COLOR unset'])
+                     'environment: NO_COLOR unset; BEARTYPE_IS_COLOR unset except in the envcolor_* harnesses, which set it to True / False / None'])
 
 
 def _c06(prop, tier, seed, jobs, limit):
